@@ -9,6 +9,7 @@ from .. import engine as E
 from .common import ok_result, err_is, is_record, isint, isstr, LETTERS
 
 IDENT = [(48, 57), (65, 90), (95, 95), (97, 122)]
+FNAME = [(46, 46), (48, 57), (65, 90), (95, 95), (97, 122)]     # what t_FUNCTION accepts after the first letter
 
 
 def z_letter(c):
@@ -46,13 +47,13 @@ class Variables(_Sym):
     doc = 'after set_variable(name, v) the formula consisting of the name evaluates to exactly v, for every identifier-shaped name'
     functions = ('Parser.set_variable', 'Parser.call_variable', 'grammarparser.lexer.t_VARIABLE', 'grammarparser.lexer.t_RELATIVE_CELL',
                  'grammarparser.parser.p_expression_varseq', 'grammarparser.parser.p_variable', 'ply.lex.Lexer.token')
-    bounds = 'names of 1..3 (quick) / 1..5 (thorough) characters over letters, digits and underscore that are identifier-shaped ' \
+    bounds = 'names of 1..5 (quick) / 1..8 (thorough) characters over letters, digits and underscore that are identifier-shaped ' \
              'without a cell-shaped prefix (the name itself is symbolic and lexed symbolically); values: any integer, logical, ' \
              'text of 2 arbitrary characters, blank, float, list of two integers'
     outside = ('names with a cell-shaped prefix such as ab1c', 'dotted variable sequences a.b')
 
     def cases(self, tier):
-        ls = (1, 2, 3) if tier == 'quick' else (1, 2, 3, 4, 5)
+        ls = (1, 2, 3, 4, 5) if tier == 'quick' else (1, 2, 3, 4, 5, 6, 7, 8)
         return [{'len': n, 'tag': t} for n in ls for t in ('int', 'bool', 'text', 'blank', 'float', 'list')]
 
     def build(self, e, p):
@@ -81,14 +82,19 @@ class CustomFunctions(_Sym):
           'value is the value of the call, also when a built-in has the same name'
     functions = ('Parser.set_function', 'Parser.call_function', 'grammarparser.lexer.t_FUNCTION', 'grammarparser.parser.p_expression_wargs',
                  'grammarparser.parser.p_expression_function', 'formulas.Dispatcher.get_for')
-    bounds = 'function names of 1..3 letters (symbolic: ranges over the ~30 built-in names of that length and all others), 0 or 2 ' \
-             'arguments; registered on a fresh parser, after the name was already called once, and over an earlier registration'
+    bounds = 'function names of 1..4 (quick) / 1..6 (thorough) characters: a letter followed by letters, digits, underscores and ' \
+             'dots (symbolic: ranges over the built-in names of that length and all others), 0, 2 or 3 arguments (symbolic integers in -9..9, the return value any integer); registered on ' \
+             'a fresh parser, after the name was already called once, and over an earlier registration'
 
     def cases(self, tier):
-        return [{'len': n, 'args': a, 'hist': h} for n in (1, 2, 3) for a in (0, 2) for h in (None, 'called_before', 'reregistered')]
+        ls = (1, 2, 3, 4) if tier == 'quick' else (1, 2, 3, 4, 5, 6)
+        return [{'len': n, 'args': a, 'hist': h} for n in ls for a in (0, 2, 3) for h in (None, 'called_before', 'reregistered')]
 
     def build(self, e, p):
-        return {'name': e.fresh_str('n', p['len'], alphabet=LETTERS), 'a': e.fresh_int('a'), 'b': e.fresh_int('b'), 'r': e.fresh_int('r')}
+        name = e.fresh_str('n', p['len'], alphabet=FNAME)
+        e.add(z_letter(zcp(name.cps[0])))
+        # the arguments stay small: with the history 'called_before' they first reach whichever built-in has that name
+        return {'name': name, 'a': e.fresh_int('a', -9, 9), 'b': e.fresh_int('b', -9, 9), 'r': e.fresh_int('r')}
 
     def run(self, env, inp, p):
         P = env.Parser()
@@ -99,7 +105,7 @@ class CustomFunctions(_Sym):
             return inp['r']
         P.set_variable('va', inp['a'])
         P.set_variable('vb', inp['b'])
-        text = inp['name'] + ('(va,vb)' if p['args'] else '()')
+        text = inp['name'] + {0: '()', 2: '(va,vb)', 3: '(va,vb,va)'}[p['args']]
         if p.get('hist') == 'called_before':
             P.parse(text)                       # the name is used once before it is registered
         elif p.get('hist') == 'reregistered':
@@ -115,7 +121,7 @@ class CustomFunctions(_Sym):
         o, calls = out['out'], out['calls']
         if len(calls) != 1:
             return False
-        want = (inp['a'], inp['b']) if p['args'] else ()
+        want = {0: (), 2: (inp['a'], inp['b']), 3: (inp['a'], inp['b'], inp['a'])}[p['args']]
         if len(calls[0]) != len(want):
             return False
         return And(ok_result(o), isint(o['result']) and o['result'] == inp['r'], *[isint(x) and x == w for x, w in zip(calls[0], want)])
@@ -130,12 +136,13 @@ class Unknown(_Sym):
     doc = 'a formula that calls an unregistered function or references an unknown variable evaluates to #NAME? - never to a ' \
           'value or a silent blank'
     functions = ('Parser.call_function', 'Parser.call_variable', 'formulas.Dispatcher.get_for', 'ply.yacc (error recovery on SyntaxError)')
-    bounds = 'unknown function names of 1..3 letters (quick) / 1..4 (thorough), symbolic and different from every registered name, ' \
+    bounds = 'unknown function names of 1..4 (quick) / 1..6 (thorough) characters (a letter, then letters, digits, underscores, dots), symbolic and different from every registered name, ' \
              'in %d contexts; unknown variable names as in C09.variables' % len(CONTEXTS)
 
     def cases(self, tier):
-        ls = (1, 2, 3) if tier == 'quick' else (1, 2, 3, 4)
-        return [{'len': n, 'ctx': c} for n in ls for c in range(len(CONTEXTS))] + [{'len': n, 'ctx': -1} for n in ls]
+        ls = (1, 2, 3, 4) if tier == 'quick' else (1, 2, 3, 4, 5, 6)
+        vs = (1, 2, 3, 4, 5) if tier == 'quick' else (1, 2, 3, 4, 5, 6, 7, 8)
+        return [{'len': n, 'ctx': c} for n in ls for c in range(len(CONTEXTS))] + [{'len': n, 'ctx': -1} for n in vs]
 
     def build(self, e, p):
         if p['ctx'] < 0:
@@ -146,7 +153,8 @@ class Unknown(_Sym):
                     e.add(z3.Or(*[c != ord(ch) for c, ch in zip(name.cps, k)]))
             return {'name': name}
         import sys
-        name = e.fresh_str('n', p['len'], alphabet=LETTERS)
+        name = e.fresh_str('n', p['len'], alphabet=FNAME)
+        e.add(z_letter(zcp(name.cps[0])))
         reg = sys.modules['hotxlfp.formulas'].dispatcher._registry_
         for k in reg:
             if len(k) == p['len']:
